@@ -90,6 +90,15 @@ type S3 struct {
 	DeletedAt gorm.DeletedAt
 }
 
+// Soft-delete model whose marker is a pointer field.
+type S3P struct {
+	ID        uint
+	A         int
+	B         int
+	C         int
+	DeletedAt *gorm.DeletedAt
+}
+
 // Belongs-to a soft-delete model (relation join of C08).
 type Holder struct {
 	ID    uint
@@ -117,6 +126,9 @@ type Perm struct {
 	Stamp      string `gorm:"default:(now_text());<-:update"`
 	CreatedAt  time.Time
 	UpdatedAt  time.Time
+	// tracked update times that may only be written on create
+	TouchedMs int64     `gorm:"autoUpdateTime:milli;<-:create"`
+	SeenAt    time.Time `gorm:"autoUpdateTime;<-:create"`
 }
 
 // ---- eager loading with composite keys (C11)
